@@ -19,6 +19,7 @@
 #include <symengine/eval_double.h>
 #include <thread>
 #include <atomic>
+#include <mutex>
 
 using namespace sim;
 using namespace SymEngine;
@@ -141,7 +142,7 @@ Json gen_op(Rng &g, unsigned nshared)
                                   "expand", "add", "mul", "pow",  "sub",  "div",
                                   "fn",   "copy", "dummy", "local", "hash", "str",
                                   "eq",   "add",  "mul",  "args", "has",  "evalf",
-                                  "xreplace", "free_symbols"};
+                                  "xreplace", "free_symbols", "locked"};
     std::string k = kinds[g.below(sizeof kinds / sizeof kinds[0])];
     o["op"] = k;
     // operands: mostly shared expressions, sometimes earlier local results
@@ -164,6 +165,8 @@ Json gen_op(Rng &g, unsigned nshared)
     }
     if (k == "copy")
         o["n"] = (long long)(1 + g.below(12));
+    if (k == "dummy") // sometimes a long burst: indices far beyond the first few
+        o["n"] = (long long)(g.chance(1, 12) ? 66000 + g.below(3000) : (g.chance(1, 4) ? 1 + g.below(300) : 1));
     if (k == "local") {
         simx::Profile p = shared_profile();
         o["e"] = g.chance(1, 3) ? special_angle(g)
@@ -274,6 +277,18 @@ Json gen(uint64_t seed, const std::string &tier)
             size_t lo = v.size() * 2 / 3;
             v.insert(v.begin() + (long)(lo + g.below(v.size() - lo + 1)), o);
         }
+    if (g.chance(1, 5)) {
+        // every thread passes through the harness's locked section early on
+        Json o = Json::object();
+        o["op"] = "locked";
+        o["a"] = (long long)g.below(nshared);
+        o["b"] = (long long)g.below(nshared);
+        for (unsigned t = 0; t < nthreads; t++) {
+            auto &v = threads.a[t]["ops"].a;
+            v.insert(v.begin() + (long)g.below(std::min<size_t>(3, v.size() + 1)), o);
+            v.insert(v.begin() + (long)g.below(std::min<size_t>(4, v.size() + 1)), o);
+        }
+    }
     plan["threads"] = threads;
     // ---- scheduler swarm configuration
     Json sc = Json::object();
@@ -321,9 +336,12 @@ Json gen(uint64_t seed, const std::string &tier)
 // ---------------------------------------------------------------------------
 struct ThreadOut {
     std::vector<std::string> results;
-    std::vector<std::string> dummies;
+    std::vector<size_t> dummy_index;
     std::vector<RCP<const Basic>> hand; // this thread's references to the hand-off objects
 };
+
+std::mutex g_box_mutex;
+std::vector<RCP<const Basic>> g_box; // guarded by g_box_mutex
 
 // a library object whose destruction the harness can count
 std::atomic<int> g_tracked_dtors{0};
@@ -414,8 +432,12 @@ std::string do_op_raw(const Json &o, const simx::Pool &shared, simx::Pool &local
         }
     }
     if (k == "dummy") {
-        RCP<const Dummy> d = dummy("w");
-        out.dummies.push_back(std::to_string(d->get_index()));
+        int64_t n = std::max<int64_t>(1, std::min<int64_t>(70000, o.geti("n", 1)));
+        RCP<const Dummy> d;
+        for (int64_t i = 0; i < n; i++) {
+            d = dummy("w");
+            out.dummy_index.push_back(d->get_index());
+        }
         local.push_back(add(d, a));
         tainted = true;
         return "dummy";
@@ -437,6 +459,17 @@ std::string do_op_raw(const Json &o, const simx::Pool &shared, simx::Pool &local
             out.hand[h] = RCP<const Basic>();
         } // destructor of the moved-to element
         return "drop:" + how;
+    }
+    if (k == "locked") {
+        // a correctly locked section of the harness with reference-count
+        // traffic inside: keeps the scheduler's handling of blocking locks
+        // exercised (a thread descheduled inside the section, others arriving)
+        std::lock_guard<std::mutex> lock(g_box_mutex);
+        g_box.push_back(a);
+        g_box.push_back(b);
+        if (g_box.size() > 6)
+            g_box.erase(g_box.begin(), g_box.begin() + 2);
+        return "locked";
     }
     if (k == "copy") {
         // copy and drop references to shared nodes in and out of containers
@@ -612,6 +645,10 @@ void exec(Run &run)
     run.count("yields_hook", st.yields_by_kind[simsched::K_HOOK]);
     if (st.guard_contended)
         run.probe("static_initialiser_contended");
+    if (st.lock_blocks)
+        run.count("probe.lock_held_by_parked_thread", st.lock_blocks);
+    if (st.spin_switches)
+        run.count("probe.spinning_thread_descheduled", st.spin_switches);
     run.fault(std::string("sched_") + (cfg.explicit_mode ? "explicit" : mode));
     if (st.switches)
         run.fault("context_switch_injected");
@@ -622,6 +659,7 @@ void exec(Run &run)
     }
     for (auto &o : outs)
         o.hand.clear(); // hand-off references a thread did not release itself
+    g_box.clear();
     // ---- conservation of reference counts
     for (size_t i = 0; i < shared.size(); i++) {
         // atoms may be the library's global singletons (zero, one, pi, ...),
@@ -652,14 +690,16 @@ void exec(Run &run)
     }
     // ---- Dummy indices unique across threads
     {
-        std::set<std::string> seen;
+        std::set<size_t> seen;
         for (auto &o : outs)
-            for (auto &d : o.dummies)
+            for (auto d : o.dummy_index)
                 if (!seen.insert(d).second) {
                     run.fail("dummy-index-collision",
-                             "two Dummy symbols got the same index " + d);
+                             "two Dummy symbols got the same index " + std::to_string(d));
                     return;
                 }
+        if (seen.size() > 65536)
+            run.probe("more_than_65536_dummies_in_one_run");
         if (seen.size() >= 2)
             run.probe("dummies_created_concurrently");
     }
@@ -696,6 +736,7 @@ void exec(Run &run)
             }
         }
     }
+    g_box.clear();
     run.count("results_compared", compared);
     run.nontrivial = st.switches >= 2 && compared >= 4;
 }
